@@ -23,6 +23,7 @@ type ChainStep struct {
 	Vals   Tree   `json:"vals"`
 	Chart  int    `json:"chart"`  // 1-based index into Defaults
 	Target int    `json:"target"` // rollback only
+	Fail   bool   `json:"fail"`   // upgrade only: the cluster update fails (the revision is recorded as failed)
 }
 
 type Chain struct {
@@ -170,7 +171,11 @@ func RunChain(c *Chain) (obs ChainObs) {
 				case "rtr":
 					up.ResetThenReuseValues = true
 				}
+				if s.Fail {
+					env.FailRes = func(_, id string) bool { return id == "probe" }
+				}
 				_, err = up.Run(scen.RelName, ch, vals)
+				env.FailRes = nil
 			}
 		case "rollback":
 			rb := action.NewRollback(cfg)
